@@ -184,7 +184,7 @@ Definition xstep (x : xstate) (e : xev) : xstate * out :=
     | EBase _ (OPub sid _ _) =>
       (* the topic goroutine while the hub is inside the store call: handlePubBroadcast sees isInactive;
          a session that is not attached is answered by Session.publish itself *)
-      (x, [(sid, Ctrl (if x_attached x sid then 503 else 409) [])])
+      (set_b (mkState (st (xb x)) (ca (xb x)) 0) x, [(sid, Ctrl (if x_attached x sid then 503 else 409) [])])
     | _ =>
       let '(x1, o1) := del_finish x in
       let '(x2, o2) := xcore x1 e in (x2, o1 ++ o2)
